@@ -112,8 +112,9 @@ theorem c02_genesis (g : Genesis) (h : g.wf = true) :
     InitChain and after every block.  No hypothesis about `Pre`: it is derived. -/
 theorem c02_power_adjustments (g : Genesis) (hw : g.wf = true) (bs : List Block) (hq : QuietHistory g bs) :
     ∃ first steps, run genEnv g bs = some (first, steps, RunEnd.done) ∧ steps.length = bs.length ∧
-      Agree first.comet first.app ∧ ∀ st ∈ steps, Agree st.comet st.app :=
-  quiet_history g hw bs hq
+      Agree first.comet first.app ∧ ∀ st ∈ steps, Agree st.comet st.app := by
+  obtain ⟨first, steps, h1, h2, h3, _, h5⟩ := quiet_history g hw bs hq
+  exact ⟨first, steps, h1, h2, h3, fun st hst => (h5 st hst).1⟩
 
 /-- non-vacuity: the first three blocks of the D1 witness history (idle; SetPower 10 → 11 units; idle) are quiet … -/
 example : quietBlockB Witness.D1.s0 Witness.D1.c0 Witness.D1.b1 = true := by decide
